@@ -182,7 +182,7 @@ def check(run):
     else:
         dumps = make_dumps(run, work, 3 if quick else 12)
         cases = []
-        reps = 1 if quick else 6
+        reps = 3 if quick else 8
         for d in dumps:
             for n in (2, 3, 4, 6, 8):
                 for cap in (n, n - 1):
